@@ -17,6 +17,8 @@ import (
 	"github.com/plgd-dev/go-coap/v3/message/codes"
 	"github.com/plgd-dev/go-coap/v3/message/pool"
 	"github.com/plgd-dev/go-coap/v3/mux"
+	"github.com/plgd-dev/go-coap/v3/net/responsewriter"
+	udpClient "github.com/plgd-dev/go-coap/v3/udp/client"
 	"pgregory.net/rapid"
 
 	"verif/evid"
@@ -152,6 +154,12 @@ type Scenario struct {
 	// before the request (a pattern in both lists is removed after its second registration)
 	Again   []int `json:"again,omitempty"`
 	Removed []int `json:"removed,omitempty"`
+	// Adapter: the request reaches the router the way a connection delivers it - through the
+	// function mux.ToHandler makes of the router (what options.WithMux installs) - and not by a
+	// direct call of ServeCOAP; Prev: requests (their path segments; nil = no path) that went through
+	// the same adapter before the examined one
+	Adapter bool       `json:"adapter,omitempty"`
+	Prev    [][]string `json:"prev,omitempty"`
 }
 
 type fakeWriter struct{ msg *pool.Message }
@@ -255,7 +263,16 @@ func Exec(sc Scenario) *evid.Failure {
 		})
 	}
 	w := &fakeWriter{msg: pool.NewMessage(context.Background())}
-	r.ServeCOAP(w, request(sc.Segments, sc.NoPath))
+	if sc.Adapter {
+		h := mux.ToHandler[*udpClient.Conn](r)
+		for _, segs := range sc.Prev {
+			h(responsewriter.New[*udpClient.Conn](pool.NewMessage(context.Background()), nil), request(segs, segs == nil).Message)
+		}
+		calls, order = nil, nil
+		h(responsewriter.New[*udpClient.Conn](w.msg, nil), request(sc.Segments, sc.NoPath).Message)
+	} else {
+		r.ServeCOAP(w, request(sc.Segments, sc.NoPath))
+	}
 
 	path := pathOf(sc)
 	// reference: the set of matching patterns
@@ -438,6 +455,27 @@ func instantiate(t *rapid.T, p Pattern) string {
 }
 
 func genScenario(t *rapid.T) Scenario {
+	sc := genDirect(t)
+	if rapid.IntRange(0, 2).Draw(t, "adapter") == 0 {
+		sc.Adapter = true
+		n := rapid.IntRange(0, 3).Draw(t, "nprev")
+		for i := 0; i < n; i++ {
+			path := "/nothing/registered/here"
+			if rapid.IntRange(0, 3).Draw(t, "prevkind") > 0 {
+				path = instantiate(t, sc.Patterns[rapid.IntRange(0, len(sc.Patterns)-1).Draw(t, "prevwhich")])
+			}
+			path = strings.TrimPrefix(path, "/")
+			if path == "" {
+				sc.Prev = append(sc.Prev, nil)
+			} else {
+				sc.Prev = append(sc.Prev, strings.Split(path, "/"))
+			}
+		}
+	}
+	return sc
+}
+
+func genDirect(t *rapid.T) Scenario {
 	sc := Scenario{Default: rapid.Bool().Draw(t, "default"), Middlewares: rapid.IntRange(0, 3).Draw(t, "mw")}
 	n := rapid.IntRange(1, 6).Draw(t, "npat")
 	seen := map[string]bool{}
@@ -678,12 +716,16 @@ func TestCheck(t *testing.T) {
 			if sc.NoPath {
 				cls = "dispatch/path=none"
 			}
-			r.Case("dispatch", key, func() any { return sc }, cls)
+			clss := []string{cls}
+			if sc.Adapter {
+				clss = append(clss, fmt.Sprintf("dispatch/through-the-connection-adapter/earlier-requests=%d", len(sc.Prev)))
+			}
+			r.Case("dispatch", key, func() any { return sc }, clss...)
 		}
 		return f
 	})
 	r.Main(evid.Meta{
-		Rule:        "1-6 patterns from a segment grammar (literals with regexp metacharacters and multi-byte runes, {v}, {v:[0-9]+}, {v:[a-z]+}, {v:.*}, {v:[^/]+}, several variables per segment, derived overlapping/prefix patterns, \"\" and \"/\") and a request path (instance of a pattern, mutated instance, random segments incl. empty and non-UTF-8 ones, or none); oracle: a hand-written backtracking matcher gives the set of patterns matching the entire path; patterns may be registered a second time with another handler (the later one is in force) or removed again before the request; exactly one invocation, default iff the set is empty, else a member of maximal length, variables valid (substitution reproduces the path, classes satisfied), PathTemplate, middleware order. Non-trivial = >= 2 patterns match or the matching literal contains a metacharacter; distinct by scenario. Concurrent phase under -race: Handle/HandleRemove/DefaultHandle vs ServeCOAP with stable routes",
+		Rule:        "1-6 patterns from a segment grammar (literals with regexp metacharacters and multi-byte runes, {v}, {v:[0-9]+}, {v:[a-z]+}, {v:.*}, {v:[^/]+}, several variables per segment, derived overlapping/prefix patterns, \"\" and \"/\") and a request path (instance of a pattern, mutated instance, random segments incl. empty and non-UTF-8 ones, or none); oracle: a hand-written backtracking matcher gives the set of patterns matching the entire path; patterns may be registered a second time with another handler (the later one is in force) or removed again before the request; in a third of the cases the request goes through the function mux.ToHandler makes of the router (what a connection calls), after 0-3 earlier requests through the same function; exactly one invocation, default iff the set is empty, else a member of maximal length, variables valid (substitution reproduces the path, classes satisfied, none besides the pattern's own), PathTemplate, middleware order. Non-trivial = >= 2 patterns match or the matching literal contains a metacharacter; distinct by scenario. Concurrent phase under -race: Handle/HandleRemove/DefaultHandle vs ServeCOAP with stable routes",
 		Assumptions: []string{"patterns are valid UTF-8 without U+FFFD and without capturing groups (documented restriction); Router.Use is not called concurrently with dispatch", "ties between equally long matching patterns may be resolved either way"},
 		Floor:       1000,
 	}, seq, concurrentEngine())
